@@ -584,6 +584,86 @@ def d_against(ctx, inputs, paths, ref, opt):
     ctx.require(ax.get_xlabel() == inputs[0].name and ax.get_ylabel() == inputs[1].name, "against:axes-order", xlabel=ax.get_xlabel(), ylabel=ax.get_ylabel())
 
 
+PRECIP_FT = [0, 1e-7, 1e-6, 1e-5, 1e-4, 0.001, 0.005, 0.01, 0.05, 0.1, 0.2, 0.3, 0.5, 1, 2, 3, 5, 10, 20, 100]
+
+
+def d_droc(ctx, inputs, paths, ref, opt):
+    which, thr = opt
+    r, fig, out = render(paths + ["-m", which, "-r", gen.fmt_num(thr), "-simple"])
+    if r.kind != "ok":
+        return ctx.fail("%s:%s:%s" % (which, r.kind, r.site or "rejected"))
+    lbl = lines_by_label(fig)
+    fts = [thr] if which == "droc0" else PRECIP_FT
+    for i, ai in enumerate(inputs):
+        ls = one_line(ctx, lbl, ai.name, which)
+        if not ls:
+            continue
+        pairs = ref.request(["obs", "fcst"], i, "no", 0)
+        exp = [(1.0, 1.0)]
+        for ft in fts:
+            a = sum(1 for o, f in pairs if f > ft and o > thr)
+            b = sum(1 for o, f in pairs if f > ft and not o > thr)
+            c = sum(1 for o, f in pairs if not f > ft and o > thr)
+            d = sum(1 for o, f in pairs if not f > ft and not o > thr)
+            exp.append((b / float(b + d) if b + d else float("nan"), a / float(a + c) if a + c else float("nan")))
+        exp.append((0.0, 0.0))
+        got = list(zip(np.asarray(ls[0][0]).reshape(-1), np.asarray(ls[0][1]).reshape(-1)))
+        ctx.require(same_points(exp, got), "%s:points" % which, input=ai.name, expected=exp[:5], actual=[(float(a), float(b)) for a, b in got][:5])
+
+
+def d_invreliability(ctx, inputs, paths, ref, opt):
+    q = opt
+    edges = [-10.0, 0.0, 1.0, 2.0, 3.0, 10.0]
+    r, fig, out = render(paths + ["-m", "invreliability", "-q", gen.fmt_num(q), "-r", ",".join(gen.fmt_num(e) for e in edges)])
+    if r.kind != "ok":
+        return ctx.fail("invreliability:%s:%s" % (r.kind, r.site or "rejected"))
+    lbl = lines_by_label(fig)
+    for i, ai in enumerate(inputs):
+        ls = one_line(ctx, lbl, ai.name, "invreliability")
+        if not ls:
+            continue
+        rows = ref.request(["obs", ("q", q)], i, "no", 0)
+        exp = []
+        for j in range(len(edges) - 1):
+            sel = [(o, x) for o, x in rows if edges[j] <= x < edges[j + 1]]
+            if sel:
+                exp.append((MP._mean([x for o, x in sel]), MP._mean([1.0 if o <= x else 0.0 for o, x in sel]) if len(sel) >= 2 else float("nan")))
+            else:
+                exp.append((0.0, float("nan")))
+        main = [g for g in ls if g[2].get_title() != "Number"]
+        ctx.require(same_points(exp, list(zip(main[0][0], main[0][1]))), "invreliability:curve", input=ai.name, expected=exp, actual=list(zip(main[0][0].tolist(), main[0][1].tolist())))
+
+
+def d_autocorr(ctx, inputs, paths, ref, opt):
+    axis = opt
+    r, fig, out = render(paths + ["-m", "autocorr", "-x", axis])
+    if r.kind != "ok":
+        return ctx.fail("autocorr:%s:%s" % (r.kind, r.site or "rejected"))
+    lbl = lines_by_label(fig)
+    coords = ref.L if axis == "leadtime" else ref.T
+    for i, ai in enumerate(inputs):
+        ls = one_line(ctx, lbl, ai.name, "autocorr")
+        if not ls:
+            continue
+        allv = ref.request_all(["obs", "fcst"], i)
+        exp = []
+        for a in coords:
+            for b in coords:
+                xs, ys = [], []
+                others = [(t, s2) for t in ref.T for s2 in ref.S] if axis == "leadtime" else [(l, s2) for l in ref.L for s2 in ref.S]
+                for (u, s2) in others:
+                    ca = (u, a, s2) if axis == "leadtime" else (a, u, s2)
+                    cb = (u, b, s2) if axis == "leadtime" else (b, u, s2)
+                    if allv[ca] is not None and allv[cb] is not None:
+                        xs.append(allv[ca][0] - allv[ca][1])
+                        ys.append(allv[cb][0] - allv[cb][1])
+                d = abs(a - b) if axis == "leadtime" else abs(a - b) / 3600.0
+                c = MD.pearson(xs, ys) if len(xs) >= 2 else None
+                exp.append((d, float("nan") if c is None else c))
+        ctx.require(same_points(exp, list(zip(ls[0][0], ls[0][1])), tol=1e-6), "autocorr:points", input=ai.name, axis=axis, expected=exp[:4],
+                    actual=list(zip(ls[0][0].tolist(), ls[0][1].tolist()))[:4])
+
+
 DIAGRAMS = {
     "standard": (d_standard, [("mae", "leadtime"), ("mae", "location"), ("corr", "time"), ("ets", "leadtime"), ("bs", "leadtime"), ("rmse", "no"), ("bias", "month"), ("mae", "leadtimeday")]),
     "obsfcst": (d_obsfcst, ["leadtime", "time", "location", ("leadtime", (0.1, 0.9)), ("location", (0.9, 0.5, 0.1))]),
@@ -603,6 +683,9 @@ DIAGRAMS = {
     "murphy": (d_murphy, [2.0, 1.0]),
     "change": (d_change, [None]),
     "against": (d_against, [None]),
+    "droc": (d_droc, [("droc", 2.0), ("droc0", 2.0), ("droc", 1.0)]),
+    "invreliability": (d_invreliability, [0.5, 0.1]),
+    "autocorr": (d_autocorr, ["leadtime", "time"]),
 }
 
 
